@@ -293,7 +293,8 @@ def sched_codes():
 
 
 def _schedules(task):
-    pa, pb, bound, start, max_exec, grain = task
+    pa, pb, bound, start, max_exec, grain = task[:6]
+    deadline = task[6] if len(task) > 6 else None
     lines, entry = sched_codes()[grain]
     provs = [None, None]
 
@@ -337,7 +338,7 @@ def _schedules(task):
         x0 = run_prefix([])
         on_exec(x0)
         return {"executions": 1, "points": len(x0.points), "shards": sched.shards(x0, bound), "violations": viol, "outcomes": len(outcomes), "complete": True}
-    n, complete = sched.explore(run_prefix, bound, on_exec, max_exec=max_exec, start=start)
+    n, complete = sched.explore(run_prefix, bound, on_exec, max_exec=max_exec, deadline=deadline, start=start)
     return {"executions": n, "violations": viol, "outcomes": len(outcomes), "complete": complete}
 
 
@@ -414,21 +415,26 @@ def run(tier: str, opts: dict) -> int:
         plan = [("fine", 1), ("coarse", 2)] if tier == "quick" else [("fine", 2), ("coarse", 3)]
         execs = 0
         sched_cov = []
+        budget = float(opts.get("sched_budget_s", 0)) or (None if tier == "quick" else 600.0)  # thorough: wall-clock budget per (grain, bound)
         for grain, bound in plan:
+            deadline = time.time() + budget if budget else None
             firsts = pmap(_schedules, [(a, b, bound, None, None, grain) for a, b in pairs], chunk=1)
             shard_tasks = []
             for (a, b), f in zip(pairs, firsts):
                 for v in f["violations"]:
                     rep.violation("sched-" + v["kind"], {"part": "c", "programs": v["programs"], "schedule": v["schedule"], "bound": bound, "grain": grain}, v["detail"])
                 for sh in f["shards"]:
-                    shard_tasks.append((a, b, bound, sh, None, grain))
+                    shard_tasks.append((a, b, bound, sh, None, grain, deadline))
             res = pmap(_schedules, shard_tasks, chunk=1)
             n = len(firsts) + sum(r["executions"] for r in res)
             execs += n
             for t, r in zip(shard_tasks, res):
                 for v in r["violations"][:1]:
                     rep.violation("sched-" + v["kind"], {"part": "c", "programs": v["programs"], "schedule": v["schedule"], "bound": bound, "grain": grain}, v["detail"])
-            sched_cov.append({"grain": grain, "preemption_bound_completed": bound, "scheduling_points_default_run": [f["points"] for f in firsts], "schedules_executed": n,
+            if not all(r["complete"] for r in res):
+                rep.cap(f"part (c) {grain} grain, preemption bound {bound}: wall-clock budget of {budget:.0f} s reached after {n} schedules; the bound below it "
+                        f"({bound - 1}) is complete in the quick tier")
+            sched_cov.append({"grain": grain, "preemption_bound_completed": bound if all(r["complete"] for r in res) else bound - 1, "preemption_bound_attempted": bound, "scheduling_points_default_run": [f["points"] for f in firsts], "schedules_executed": n,
                               "complete": all(r["complete"] for r in res)})
         transitions += execs
         validated += execs
